@@ -111,10 +111,13 @@ def val_tok(o):
 
 
 def key_obj(k):
-    return 'k%d' % k
+    # non-negative keys are the strings 'k<n>'; negative ones are the integers 0, 1, ... (-1 is the key 0)
+    return 'k%d' % k if k >= 0 else -k - 1
 
 
 def key_tok(o):
+    if type(o) is int:
+        return str(-o - 1)
     if type(o) is str and re.match(r'^k-?[0-9]+$', o):
         return o[1:]
     return 'foreignkey:%r' % (o,)
@@ -222,6 +225,8 @@ class Executor:
         self.dorder = []
         self.embs = {}
         self.reps = {}      # raw representations driven by primitive calls (Layer R)
+        self.integrators = {}
+        self.raw_deleted = set()
         self.den = 2        # filtration indices are integers over this denominator
 
     # -- tokens ------------------------------------------------------------------------------------------
@@ -268,6 +273,11 @@ class Executor:
             return 'foreignidx:%r' % (x,)
         return str(int(v))
 
+    def integrator(self, key, dflt):
+        if (key, dflt) not in self.integrators:
+            self.integrators[(key, dflt)] = EulerIntegrator(key, dflt)
+        return self.integrators[(key, dflt)]
+
     def put(self, h, o):
         if h not in self.objs:
             self.order.append(h)
@@ -290,6 +300,7 @@ class Executor:
 
     # -- execution ---------------------------------------------------------------------------------------
     def run(self, line):
+        self.effective = None       # the line to hand to the model when it differs from the script's (see subdiv)
         try:
             return self._run(line)
         except (KeyError, ValueError):
@@ -299,6 +310,8 @@ class Executor:
         except NoObject as e:
             return 'err no-object ' + str(e)
         except Exception as e:      # anything else is neither KeyError nor ValueError
+            if type(e) is Exception and str(e).startswith('No simplex ') and ' in filtration at index ' in str(e):
+                return 'rej'        # Filtration.orderOf/indexOf document a bare Exception for a simplex not present
             return 'crash:' + type(e).__name__
 
     def _run(self, line):
@@ -335,7 +348,12 @@ class Executor:
         if op == 'restrict':
             O[h].restrictBasisTo(self.names(t[2])); return 'ok -'
         if op == 'subdiv':
-            return 'ok ' + self.T(O[h].barycentricSubdivide(self.name(t[2])))
+            # the model is told the order in which this interpreter enumerates the basis (a Python set): it is
+            # read here, at run time, so that a stored script does not carry an enumeration of another run
+            n = self.name(t[2])
+            if SimplicialComplex.containsSimplex(O[h], n):
+                self.effective = 'subdiv %s %s [%s]' % (h, t[2], ','.join(self.T(x) for x in SimplicialComplex.basisOf(O[h], n)))
+            return 'ok ' + self.T(O[h].barycentricSubdivide(n))
         if op == 'relabel':
             m = O[h].relabel(self.ren(t[2]))
             return 'ok {' + ','.join('%s:%s' % (self.T(a), self.T(b)) for a, b in m.items()) + '}'
@@ -361,10 +379,16 @@ class Executor:
             O[h].copy(O[t[2]]); return 'ok -'
         if op == 'deepcopy':
             self.put(t[2], copy.deepcopy(O[h])); return 'ok -'
-        if op == 'compose':
-            self.put(t[3], O[h].compose(O[t[2]])); return 'ok -'
-        if op == 'composeinto':
-            O[h].compose(O[t[2]], O[t[3]]); return 'ok -'
+        if op in ('compose', 'composeinto'):
+            a, b = O[h], O[t[2]]
+            tgt = O[t[3]] if op == 'composeinto' else None
+            try:
+                r = a.compose(b) if tgt is None else a.compose(b, tgt)
+            except KeyError:
+                return 'rejK'           # the documented rejection is ValueError: reported apart
+            if tgt is None:
+                self.put(t[3], r)
+            return 'ok -'
         if op == 'flag':
             self.put(t[2], O[h].flagComplex()); return 'ok -'
         if op == 'json':
@@ -373,6 +397,16 @@ class Executor:
             self.put(t[2], json.loads(txt, object_hook=sfile.as_simplicial_complex)); return 'ok -'
         if op == 'grow':
             O[h].growFlagComplex(self.names(t[2])); return 'ok -'
+        if op == 'growb':
+            # the new edges are named by their end points (u3+u4): the names they were given are looked up here, so
+            # that a stored script does not depend on the names generated in the run that recorded it
+            c = O[h]
+            es = []
+            for pr in (split_top(t[2][1:-1], ',') if t[2] != '[]' else []):
+                e = SimplicialComplex.simplexWithBasis(c, [self.name(x) for x in pr.split('+')])
+                es.append(self.T(e) if e is not None else 'u999')
+            self.effective = 'grow %s [%s]' % (h, ','.join(es))
+            c.growFlagComplex(self.names('[' + ','.join(es) + ']')); return 'ok -'
         if op in ('ksimplex', 'kvoid', 'kskel', 'ring'):
             tgt = None if t[2] == 'new' else O[h]
             k = int(t[3])
@@ -408,11 +442,11 @@ class Executor:
         if op == 'snap':
             self.put(t[2], O[h].snap()); return 'ok -'
         if op == 'fcopy':
-            try:
-                self.put(t[2], O[h].copy())
-            except IndexError:
-                raise Rej()
-            return 'ok -'
+            # likewise the order in which copy() will replay the simplices (simplicesAddedAtIndex, index by index)
+            f = O[h]
+            if isinstance(f, Filtration):
+                self.effective = 'fcopy %s %s [%s]' % (h, t[2], ','.join(self.T(x) for i in f.indices() for x in f.simplicesAddedAtIndex(i)))
+            self.put(t[2], f.copy()); return 'ok -'
         if op == 'iter':
             out = []
             for c in O[h].complexes():
@@ -453,7 +487,10 @@ class Executor:
             if op == 'rrel':
                 rep.relabelSimplex(self.name(t[2]), self.name(t[3])); return 'ok -'
             if op == 'rdel':
-                rep.forceDeleteSimplex(self.name(t[2])); return 'ok -'
+                n = self.name(t[2])
+                if rep.containsSimplex(n) and len(rep.cofaces(n)) > 0:
+                    self.raw_deleted.add(h)        # removed from under its cofaces: the structure is no longer closed
+                rep.forceDeleteSimplex(n); return 'ok -'
             return 'ok ' + self.robs(rep)
         if op == 'q':
             return self.query(O[h], t[2:])
@@ -526,7 +563,8 @@ class Executor:
                  'eq': lambda: c == d, 'ne': lambda: c != d}[q]()
             return 'ok ' + B(r)
         if q == 'integrate':
-            return 'ok %d' % EulerIntegrator(key_obj(int(a[1])), int(a[2])).integrate(c)
+            # one integrator object per (attribute, default) for the whole script, as a caller holding one would use it
+            return 'ok %d' % self.integrator(key_obj(int(a[1])), int(a[2])).integrate(c)
         if q == 'added':
             try:
                 return 'ok ' + self.idx_tok(c.addedAtIndex(self.name(a[1])))
